@@ -17,4 +17,11 @@ Pos == {"first", "middle", "last"}
 Init == c \in [base : Bases, kind : Kinds, pos : Pos, wrap : Wraps, type : Types, stale : BOOLEAN]
 Next == FALSE /\ UNCHANGED c
 Emit == PrintT("CASE " \o ToJson(c))
+\* per-CPU family: every assembler back end reports its own errors, so the same single-point corruption is put into a
+\* program of that CPU's instructions (the renderer takes them from tests/comparison), and the program ends at end of
+\* file, with `end` or with `.end`
+CpuKinds == {"none", "unknown_mnemonic", "nine_operands", "unknown_mnemonic_in_if", "db_range"}
+Terms == {"eof", "end", "dotend"}
+CpuCases == [kind : CpuKinds, pos : Pos, term : Terms, stale : BOOLEAN]
+EmitCpu == (c.kind = "none" /\ c.pos = "first" /\ c.wrap = "none" /\ ~c.stale /\ c.base = 1 /\ c.type = "hex") => PrintT("CPUCASES " \o ToJson(CpuCases))
 =============================================================================
